@@ -346,6 +346,22 @@ def construct (prov : Nat → List Nat) (entries : List (Src × Bool)) : Verdict
     | none => .invalidDefinition
     | some gs => .ok gs
 
+/-- `add_listener(*ls)` after construction (`allowed_references = SPECS_SAFE`): every entry given *by name*
+(`byName`) is built again over the providers of that pass only; an entry some name of which is not provided
+there registers nothing (no error, `names_not_found` is only recorded); what resolves is appended to the executor -/
+def lateGuards (prov : Nat → List Nat) (entries : List (Src × Bool × Bool)) : List Guard :=
+  entries.filterMap fun en =>
+    match en.1, en.2.2 with
+    | .parsed e, true => if (unknowns prov e).isEmpty then some ⟨subst prov e, en.2.1⟩ else none
+    | _, _ => none
+
+/-- construction over `prov`, then one attachment pass per element of `lates` -/
+def constructPasses (prov : Nat → List Nat) (lates : List (Nat → List Nat)) (entries : List (Src × Bool × Bool)) :
+    Verdict :=
+  match construct prov (entries.map fun en => (en.1, en.2.1)) with
+  | .ok gs => .ok (gs ++ lates.flatMap fun p => lateGuards p entries)
+  | .invalidDefinition => .invalidDefinition
+
 /-- the declared entries as Python expressions (for the specification side) -/
 def sourceGuards : List (Src × Bool) → List Guard
   | [] => []
